@@ -80,7 +80,7 @@ def d2(cx: Cx, ob: Ob) -> None:
             for c in subterms(t):
                 if op(c) != "call":
                     continue
-                if ev.kind == "expr" and ev.a == c:
+                if ev.kind == "expr" and ev.a == c and op(c[1]) == "cls" and c[1][1].endswith(".Converter"):
                     continue  # constructed and thrown away (a validity check): nothing keeps the records
                 tg = o.tag(c)
                 if tg is not None and tg[0] == "CF" and tg[1] is not None and tg[1][0] in ("B", "S"):
@@ -261,7 +261,7 @@ def check_no_aliasing(cx: Cx, ob: Ob) -> None:
 @obligation("C10-D4", "no derivation mutates an argument object: no store into, deletion from or mutator call on a parameter (mappings, sequences or converters handed in may alias the caller's - even the input converter's own - tables)", floor=6)
 def d4(cx: Cx, ob: Ob) -> None:
     for fn, ps in scope(cx, ob):
-        s = cx.summary(fn, ob.id)
+        s = cx.summary(fn, ob.id, full=True)
         own = {fn.self_name} if fn.self_name else set()
         params = {("param", p.name) for p in fn.params if p.name not in own and p.name != "cls"}
         ob.site(f"{fn.where} {fn.qualname}", f"parameters {sorted(p[1] for p in params)}")
@@ -298,7 +298,7 @@ def d5(cx: Cx, ob: Ob) -> None:
         n += 1
         if not any("cache" in d for d in fn.decorators) or fn.is_property:
             continue
-        s = cx.summary(fn, ob.id)
+        s = cx.summary(fn, ob.id, full=True)
         for t, ctx in s.returns():
             mutable = op(t) in ("new", "dict", "list", "set", "comp") or (op(t) == "call" and callee_name(t) in MUT)
             if mutable:
